@@ -49,7 +49,7 @@ def run(tier):
     chk = Check(PROP, tier)
     lean_ok = lean_gate(chk, THEOREMS)
     quick = tier == "quick"
-    n_gen = 30 if quick else 500
+    n_gen = 30 if quick else 180
     nmax = 3
     D = 10
     cases = pipeline.load_corpus(PROP) + pipeline.generate_cases(n_gen, f"{PROP}-{tier}", families=["param"])
@@ -185,7 +185,7 @@ def run(tier):
     #   delta rows = formal derivative of the moment rows up to justified pruning  ∧  delta initial values = derivative of the initial
     #   values  ∧  reported closed form solves the augmented linear system for all n (window validator)
     #   ⇒  reported sensitivity(n) = d/dp E(M)(n) for all n (moment rows themselves: C03's V2)
-    chain_jobs = [(c, p) for c, p in jobs][: (40 if quick else 400)]
+    chain_jobs = [(c, p) for c, p in jobs][: (40 if quick else 150)]
     ctasks = [{"fn": "harness.tasks.sens:sens_chain",
                "args": {"text": c["text_used"], "goal": [[x, k] for x, k in c["goals"][0]], "param": p, "subs": polar_subs(c)}}
               for c, p in chain_jobs]
